@@ -441,6 +441,13 @@ func (c *c03) prove(ch *c03Chain, h *types.Header) []byte {
 			return "err"
 		}
 		proof = bytes.Join(p2, nil)
+		// the proof handed out belongs to the caller: it overwrites every node after taking its copy, which must not reach
+		// any later proof
+		for _, node := range p2 {
+			for i := range node {
+				node[i] ^= 0xa5
+			}
+		}
 		return "proof=" + hx(proof)
 	})
 	c.o.Case(fmt.Sprintf("prove chain=%d ep=%d r=%d", ch.id, ep, num%c03Epoch), out)
